@@ -110,6 +110,11 @@ func (c *Ctx) Violate(rule, key, pos, detail string, trail ...string) {
 func (c *Ctx) Undecided(rule, key, pos, detail string) { c.add(rule, key, pos, Undecided, detail, nil) }
 func (c *Ctx) Info(rule, key, pos, detail string)      { c.add(rule, key, pos, Info, detail, nil) }
 
+// Import records an obligation evaluated in a scratch context under another rule id (subject to Share filtering).
+func (c *Ctx) Import(o *Obligation, rule string) {
+	c.add(rule, o.Key, o.Pos, o.Status, o.Detail, o.Trail)
+}
+
 // Check records discharged when ok, violated otherwise.
 func (c *Ctx) Check(ok bool, rule, key, pos, okDetail, badDetail string, trail ...string) {
 	if ok {
